@@ -24,7 +24,7 @@ from .common import Report
 from .c01 import validate
 
 # ops whose every sampled configuration plain torch.fx could trace on the pinned tree (the others use len()/iteration/control
-# flow on tensors in Python and are outside the fx clause); a change of this set is reported, non-gating
+# flow on tensors in Python and are outside the fx clause); an op of this set that stops being traceable violates the fx clause
 FX_TRACEABLE_AT_PIN = {"dropout", "gelu", "layer_norm", "linear", "linear_readout", "matmul", "silu", "silu_glu", "softmax"}
 
 
@@ -111,7 +111,11 @@ def pick_cfgs(rng: random.Random, n: int) -> List[Dict[str, Any]]:
     # dropout with p>0 in training mode: eager and compiled RNG streams differ by design of torch
     def variant(c):
         return (c["op"], c.get("approximate"), c.get("is_causal"), c.get("mask"), c.get("reduction"), c.get("affine"), c.get("training"),
-                c.get("padding_idx") is None, c.get("scalar") is None, bool(c.get("n_ignored")), bool(c.get("prob_target")), c.get("bias", None), c.get("heads") is None)
+                c.get("padding_idx") is None, c.get("scalar") is None, bool(c.get("n_ignored")), bool(c.get("prob_target")), c.get("bias", None), c.get("heads") is None,
+                # hyper-parameters that select a Python branch of the library: the class of the constraint (identity / selection / mean on
+                # possibly traced values), mult == 1, max_norm, groups, cross-attention shapes, 1-D matmul operands
+                {"__default__": "default", None: "none"}.get(c.get("constraint", "__default__"), "mean" if str(c.get("constraint")).endswith("mean") else "select"),
+                c.get("mult", 1.0) == 1.0, c.get("max_norm") is None, c.get("groups", 1) > 1, "seq_kv" in c, c.get("vec"))
     groups: Dict[Any, List[Dict[str, Any]]] = {}
     for c in allc:
         groups.setdefault(variant(c), []).append(c)
@@ -210,14 +214,15 @@ def check_cfgs(rep: Report, cfgs: List[Dict[str, Any]], modes: List[str], rng: r
                 if mode == "fx_forward":
                     skipped_fx += 1     # not symbolically traceable (data-dependent python in the op): outside the fx clause
                     if fx_expected(cfg):
-                        rep.beyond(f"{cfg['op']} was symbolically traceable by plain torch.fx on the pinned tree and is not any more: {type(ex).__name__}: {str(ex)[:100]}; cfg={cfg}")
+                        rep.violation(f"{cfg['op']} cannot be traced by plain torch.fx any more (it could on the pinned tree, so symbolic tracing no longer reproduces its forward values): {type(ex).__name__}: {str(ex)[:100]}; cfg={cfg}",
+                                      {"cfg": cfg, "mode": mode, "what": "fx_trace"}, key=f"fx_no_longer_traceable:{cfg['op']}")
                     continue
                 rep.violation(f"{cfg['op']} under {mode} raised {type(ex).__name__}: {str(ex)[:160]}; cfg={cfg}", {"cfg": cfg, "mode": mode}, key=f"raised:{mode}:{cfg['op']}")
                 continue
             if mode == "fx_forward" and any(e[0] == "err" and e[5] == 1 for e in evm):
                 skipped_fx += 1
                 if fx_expected(cfg):
-                    rep.beyond(f"{cfg['op']} was symbolically traceable by plain torch.fx on the pinned tree and is not any more; cfg={cfg}")
+                    rep.violation(f"{cfg['op']} raises under plain torch.fx tracing (it did not on the pinned tree); cfg={cfg}", {"cfg": cfg, "mode": mode, "what": "fx_trace"}, key=f"fx_no_longer_traceable:{cfg['op']}")
                 continue
             events += evm
             # aot_eager / leaf tracer / fx run the SAME ATen kernels as eager: float64 must agree at float64 rounding for every
